@@ -171,7 +171,7 @@ var clauseKeywords = map[string]bool{
 	"inv": true, "opaque": true, "havoc": true, "noinline": true, "bounded": true, "returns_fresh": true, "fresh_result": true, "deep_closedness": true,
 	"only_for": true, "bitprecise": true,
 	"sweep": true, "cover": true, "replay_hint": true, "never_writes": true, "frame_only": true, "reveal": true, "iface_calls_only": true, "direct_calls_only": true,
-	"requires_held": true, "writers": true, "never_calls": true, "append_only": true, "no_early_exit": true, "spawn_never_writes": true, "unshared_receiver": true, "sync": true, "owner_lock": true, "complete": true,
+	"requires_held": true, "same_critical_section": true, "writers": true, "never_calls": true, "append_only": true, "no_early_exit": true, "spawn_never_writes": true, "unshared_receiver": true, "sync": true, "owner_lock": true, "complete": true,
 	"rep_invariant": true, "nested_closedness": true, "dominated": true, "writes_unconditionally": true, "reads_only": true, "deterministic": true,
 	"lean_invariants": true,
 }
